@@ -14,12 +14,23 @@ and must print the model's observation byte for byte).  They quantify over
     `run_cases` in Proofs/C18Run).
 The statements are the executable Spec predicates of Spec/C18 (the very functions the driver evaluates on the real
 registry's observations) plus, for the configuration, the unbounded ∀-fields form.
+
+Round 2 adds
+  * sessions (`Model.C18Sess`, `Spec.C18Sess`): ONE registry with ANY number of registrations (plugin type × name × shape,
+    each with its own user code and fault plan) and ANY interleaving of Register / New / NewFactory / calls of any factory
+    handed out so far / Lookup — `C18_session` (the whole session Spec), `C18_lookup` (creation by name: the lookup error
+    without any user code, or exactly the one registration for this type and name), `C18_isolation`,
+    `C18_session_single` (the session model restricted to one registration and one creation IS `Model.C18.run`);
+  * the config hooks (`Model.C18Hook`: `Hook`, `FactoryHook`, `parseConf`) — `C18_hook`, `C18_hook_order`, and for the
+    tree as found (an empty plugin name reaches the registry and panics there) `C18_hook_unrepaired_counterexample` /
+    `C18_hook_partial`.
 -/
 import Pandora.Proofs.C18Ext
 import Pandora.Proofs.C18Eng
 import Pandora.Proofs.C18Hist
 import Pandora.Bridge.Plugin
 import Pandora.Proofs.C18Sess
+import Pandora.Proofs.C18Hook
 
 namespace Pandora.Props.C18
 open Pandora.Model.C18 Pandora.Spec.C18 Pandora.Proofs.C18
@@ -491,6 +502,19 @@ theorem C18_lookup (pre : List Op) (t : Nat) (n : String) (user : Cfg) (hasFill 
     have hj' : book.regs[j]? = some sl'.reg := by rw [hR.regs, List.getElem?_map, hj]; rfl
     exact hU j i sl'.reg sl.reg hj' hr (by rw [g1, h1]) (by rw [g2, h2])
 
+/-- **the session model extends the single-creation model**: a session that registers one constructor and then does what
+`Model.C18.run` does — `NewFactory` followed by k calls of the factory, or k calls of `New` — has exactly the steps of
+`Model.C18.run` for the corresponding input (so `C18_config`, `C18_errors`, `C18_fresh`, `C18_once`, … speak about
+sessions as well, and `C18_session` generalises them to every interleaving and any number of registrations) -/
+theorem C18_session_single (r : Reg) (hn : r.name ≠ "") (hreg : registerOk r.sh = true) (user : Cfg) (hasFill : Bool) (k : Nat) :
+    (∀ e : Bool, some ((Pandora.Model.C18Sess.run
+        (.register r :: .newFactory r.ptype r.name e user hasFill :: List.replicate k (.call 0))).outs.filterMap stepOf) =
+      (run { r.input (formOf e) user hasFill with k := k }).map (·.steps)) ∧
+    some ((Pandora.Model.C18Sess.run
+        (.register r :: List.replicate k (.new r.ptype r.name user hasFill))).outs.filterMap stepOf) =
+      (run { r.input .component user hasFill with k := k }).map (·.steps) :=
+  ⟨fun e => single_factory r hn hreg e user hasFill k, single_new r hn hreg user hasFill k⟩
+
 /-- **registrations do not interfere**: an operation that the Spec attributes to registration `i` changes the state of
 no other registration; an operation that reaches no registration (failed lookup, call of a factory that was never
 handed out, `Lookup`) changes nothing at all, and `Register` changes no existing registration and no factory -/
@@ -515,6 +539,101 @@ theorem C18_isolation (pre : List Op) (op : Op) :
     rw [List.getElem?_append_left (lt_of_getElem? hj)]
     exact hj
 
+end
+
+/-! ### the config hooks (core/plugin/pluginconfig): from config data to a creation by name -/
+section
+open Pandora.Model.C18Hook Pandora.Proofs.C18Hook
+
+/-- **what reaches the registry through the hooks** (repaired `parseConf`): a creation by name happens exactly for
+well-formed data — a map with string keys and exactly one key that spells `type` in any letter case, with a string value
+— the plugin name is that value and is NEVER empty (so the registry's `expect(name != "")` cannot fire on user data),
+and the user's settings are all other entries, in their order, none of them a `type` key; for every other data the hook
+ends with the error result (and for a type without any registered plugin it hands the data back untouched) -/
+theorem C18_hook (typeKnown : Bool) (dk : DataKind) (nsk : Bool) (data : List KV) :
+    (typeKnown = false → hook true typeKnown dk nsk data = .pass) ∧
+    (typeKnown = true → ∀ name, WellFormed true dk nsk data name →
+      hook true typeKnown dk nsk data = .create name (data.filter fun kv => !isTypeKey kv.key) ∧ name ≠ "") ∧
+    (typeKnown = true → (¬ ∃ name, WellFormed true dk nsk data name) → hook true typeKnown dk nsk data = .parseErr) ∧
+    (∀ name rest, hook true typeKnown dk nsk data = .create name rest →
+      name ≠ "" ∧ WellFormed true dk nsk data name ∧ ∀ kv ∈ rest, isTypeKey kv.key = false) := by
+  refine ⟨fun h => by simp [hook, h], fun h name hw => ?_, fun h hn => ?_, fun name rest hc => ?_⟩
+  · refine ⟨by simp [hook, h, parseConf_of_wf hw], ?_⟩
+    obtain ⟨_, _, _, _, _, _, h5⟩ := hw
+    exact h5 rfl
+  · simp [hook, h, parseConf_err hn]
+  · unfold hook at hc
+    cases typeKnown with
+    | false => simp at hc
+    | true =>
+      simp only [Bool.not_true, Bool.false_eq_true, if_false] at hc
+      cases hp : parseConf true dk nsk data with
+      | err => simp [hp] at hc
+      | ok n r =>
+        simp only [hp, Out.create.injEq] at hc
+        obtain ⟨rfl, rfl⟩ := hc
+        obtain ⟨hw, hr⟩ := parseConf_ok hp
+        refine ⟨?_, hw, fun kv hkv => ?_⟩
+        · obtain ⟨_, _, _, _, _, _, h5⟩ := hw
+          exact h5 rfl
+        · rw [hr] at hkv
+          simpa using (List.mem_filter.mp hkv).2
+
+/-- a Go map has no iteration order: whichever enumeration of the data the model is given, the outcome is the same (the
+settings up to their order) -/
+theorem C18_hook_order (typeKnown : Bool) (dk : DataKind) (nsk : Bool) (data data' : List KV) (hp : data.Perm data') :
+    match hook true typeKnown dk nsk data, hook true typeKnown dk nsk data' with
+    | .pass, .pass => True
+    | .parseErr, .parseErr => True
+    | .create n r, .create n' r' => n = n' ∧ r.Perm r'
+    | _, _ => False := by
+  cases typeKnown with
+  | false => simp [hook]
+  | true =>
+    by_cases hw : ∃ name, WellFormed true dk nsk data name
+    · obtain ⟨name, hw⟩ := hw
+      have hw' := wf_perm hp hw
+      simp only [hook, Bool.not_true, Bool.false_eq_true, if_false, parseConf_of_wf hw, parseConf_of_wf hw']
+      exact ⟨trivial, hp.filter _⟩
+    · have hw' : ¬ ∃ name, WellFormed true dk nsk data' name := fun ⟨n, h⟩ => hw ⟨n, wf_perm hp.symm h⟩
+      simp [hook, parseConf_err hw, parseConf_err hw']
+
+/-- the tree as found: `type: ""` goes through to the registry, whose `expect(name != "")` panics — the statement that the
+name handed to the registry is never empty is FALSE without the repair -/
+def C18_hook_unrepaired_statement : Prop :=
+  ∀ (typeKnown : Bool) (dk : DataKind) (nsk : Bool) (data : List KV) (name : String) (rest : List KV),
+    hook false typeKnown dk nsk data = .create name rest → name ≠ ""
+
+theorem C18_hook_unrepaired_counterexample : ¬ C18_hook_unrepaired_statement := by
+  intro h
+  exact h true .strMap false [⟨['t', 'y', 'p', 'e'], true, ""⟩] "" [] (by decide) rfl
+
+/-- what holds of the tree as found as well: everything but the emptiness of the name -/
+theorem C18_hook_partial (typeKnown : Bool) (dk : DataKind) (nsk : Bool) (data : List KV) (name : String) (rest : List KV)
+    (h : hook false typeKnown dk nsk data = .create name rest) :
+    WellFormed false dk nsk data name ∧ rest = data.filter (fun kv => !isTypeKey kv.key) := by
+  unfold hook at h
+  cases typeKnown with
+  | false => simp at h
+  | true =>
+    simp only [Bool.not_true, Bool.false_eq_true, if_false] at h
+    cases hp : parseConf false dk nsk data with
+    | err => simp [hp] at h
+    | ok n r =>
+      simp only [hp, Out.create.injEq] at h
+      obtain ⟨rfl, rfl⟩ := h
+      exact parseConf_ok hp
+
+/-- non-vacuity: `Type: x` with settings, in a `map[interface{}]interface{}` -/
+example : hook true true .anyMap false [⟨['a'], false, "5"⟩, ⟨['T', 'y', 'p', 'e'], true, "x"⟩, ⟨['b'], false, "7"⟩] =
+    .create "x" [⟨['a'], false, "5"⟩, ⟨['b'], false, "7"⟩] := by decide
+/-- two spellings of the key / a number as name / no key / an empty name / a non-string key: the error result -/
+example : hook true true .strMap false [⟨['t', 'y', 'p', 'e'], true, "x"⟩, ⟨['T', 'Y', 'P', 'E'], true, "x"⟩] = .parseErr ∧
+    hook true true .strMap false [⟨['t', 'y', 'p', 'e'], false, "5"⟩] = .parseErr ∧
+    hook true true .strMap false [⟨['t', 'y', 'p'], true, "x"⟩] = .parseErr ∧
+    hook true true .strMap false [⟨['t', 'y', 'p', 'e'], true, ""⟩] = .parseErr ∧
+    hook true true .anyMap true [⟨['t', 'y', 'p', 'e'], true, "x"⟩] = .parseErr ∧
+    hook true false .other false [] = .pass := by decide
 end
 
 /-! ### non-vacuity: concrete inputs that meet the hypotheses and exercise every branch of the statements -/
